@@ -25,7 +25,10 @@ enum Item {
 
 fn lens(tier: Tier) -> Vec<usize> {
     if tier == Tier::Quick {
-        (1..=64).map(|k| 8 * k).collect()
+        // every length up to 512 and a few longer ones
+        let mut v: Vec<usize> = (1..=64).map(|k| 8 * k).collect();
+        v.extend([520, 776, 1024, 2048]);
+        v
     } else {
         (1..=128).map(|k| 8 * k).collect()
     }
